@@ -22,7 +22,7 @@ class C16(PropBase):
             "for 3 aircraft; -f over random subsets of {0,4,5,11,16,17,18,20,21,24} plus none/all/single; -c on/off. Counter "
             "line of the real display (last 'DFn:count' line printed during the reader run) against the count of generated "
             "accepted frames per DF and against the model; table with -f against the table of the stream restricted to the "
-            "listed formats. Non-trivial = at least one frame counted / filtered out; distinct by stream and option set.")
+            "listed formats; the same with a silent aircraft due to expire and 12-30 rejected frames among 1-8 listed ones (rejected frames must not advance the sweep). Non-trivial = at least one frame counted / filtered out; distinct by stream and option set.")
 
     def stream(self, rng, n):
         addrs = [0x4B0001, 0x4B0002, 0xA00003]
@@ -88,6 +88,35 @@ class C16(PropBase):
                 rep.nontriv((tuple(lines), str(flt), count, u))
             rep.count("filter=" + ("none" if flt is None else str(len(flt))))
         rep.sample({"lines": [l for l, _ in st][:6], "filter": flt, "expected_counter_line": want})
+        # frames the filter rejects leave table AND counters untouched - also the sweep counter: with a silent aircraft older
+        # than delete_after in the table, many rejected frames among few listed ones must not bring the expiry sweep forward
+        for c in range(12 if tier == "quick" else 200):
+            u = bool(c % 2)
+            silent, live = 0x4B1000 + c, 0x4B2000 + c
+            flt = [17] if c % 3 else [17, 11]
+            rejected = [gen.rand_frame(rng, rng.choice(["df4", "df5", "df0", "df20", "df21", "df16"]), rng.choice([live, 0x4B3000 + c]))
+                        for _ in range(rng.randrange(12, 30))]
+            listed = [gen.rand_frame(rng, rng.choice(["tc4", "tc11", "tc19.1"]), live) for _ in range(rng.randrange(1, 9))]
+            mixed = list(rejected)
+            for f in listed:
+                mixed.insert(rng.randrange(len(mixed) + 1), f)
+            kept = [f for f in mixed if f in listed]
+            ops = []
+            for tag, lines in (("whole", mixed), ("listed", kept)):
+                ops += ["reset", gen.cfg_op(use_update=u, filter=flt, count=True, delete_after=5), f"case pre-{tag}"] \
+                    + gen.seg([F.df17(5, silent, F.me_ident(4, 1, F.callsign_codes("SILENT")))]) + ["adv 5500", f"case {tag}"] + gen.seg(lines) + ["dump"]
+            impl, so, model = run.execute(ops, model=driver_ok)
+            rep.evaluations += len(mixed) + len(kept); rep.traces += 2
+            self.corr(rep, impl, model, {"filter": flt, "rejected": len(rejected), "listed": len(listed)}, ops)
+            ci = core.split_cases(impl)
+            a = sorted(gen.parse_dump(ci.get("whole", [])))
+            b = sorted(gen.parse_dump(ci.get("listed", [])))
+            if a != b:
+                self.fail(rep, f"-f {flt}: {len(rejected)} frames of other formats among {len(listed)} listed ones change which aircraft are in the table: "
+                               f"{['%06X' % x for x in a]} with them, {['%06X' % x for x in b]} without (a silent aircraft was due to expire)",
+                          {"ops": ops, "filter": flt})
+                return
+            rep.nontriv(("filter-sweep", c))
 
     def judge_replay(self, rep, obj, impl, so, model):
         super().judge_replay(rep, obj, impl, so, model)
